@@ -7,13 +7,13 @@ import json
 import numpy as np
 from scipy.constants import angstrom
 
-from . import core, gem, trajsc
+from . import core, gem, trajsc, translate
 from .core import Outcome, PropertySpec
 
 from gemdat.metrics import TrajectoryMetrics  # noqa: E402
 
 PID = 'C06'
-MODULES = ['GProofs.C06']
+MODULES = ['GProofs.C06', 'GProofs.C06Gen', 'GProofs.C14Gen']
 
 
 def gen_case(rng, tmax):
@@ -108,6 +108,7 @@ SPEC = PropertySpec(
     modules=MODULES,
     run=run,
     replay=replay,
+    gen=translate.gen_for('FormulasC06', 'FormulasC14'),
     rule=('random walks of 2-40 frames (thorough: every tenth up to 200) x 1-4 atoms, dyadic coordinates, step sizes up to 28/64 so '
           'that atoms cross faces many times, on pool lattices incl. strongly triclinic and re-oriented ones. mean_squared_displacement() '
           'vs the exact rational definition (average over time origins of |r(t+m) - r(t)|^2 on unwrapped Cartesian tracks) for every '
